@@ -29,8 +29,12 @@ type solverSpec struct {
 }
 
 var solvers = []solverSpec{
-	{"z3-new", func(f string, t int) []string { return []string{fmt.Sprintf("-T:%d", t), "smt.mbqi=false", "smt.auto_config=false", f} }, "z3-new"},
-	{"z3", func(f string, t int) []string { return []string{fmt.Sprintf("-T:%d", t), "smt.mbqi=false", "smt.auto_config=false", f} }, "z3"},
+	{"z3-new", func(f string, t int) []string {
+		return []string{fmt.Sprintf("-T:%d", t), "smt.mbqi=false", "smt.auto_config=false", f}
+	}, "z3-new"},
+	{"z3", func(f string, t int) []string {
+		return []string{fmt.Sprintf("-T:%d", t), "smt.mbqi=false", "smt.auto_config=false", f}
+	}, "z3"},
 	{"cvc5", func(f string, t int) []string {
 		return []string{fmt.Sprintf("--tlimit=%d", t*1000), "--produce-models", f}
 	}, "cvc5"},
@@ -83,9 +87,9 @@ func Solve(script string, dir, name string, timeoutS int, confirm bool) SolverRe
 	ctx, cancel := context.WithCancel(context.Background())
 	defer cancel()
 	type ans struct {
-		sp      solverSpec
-		v, out  string
-		dt      float64
+		sp     solverSpec
+		v, out string
+		dt     float64
 	}
 	ch := make(chan ans, len(solvers))
 	var wg sync.WaitGroup
